@@ -163,26 +163,35 @@ def rewrite_imports(source_code: str, mapping: MappingType) -> Union[str, None]:
                     import_name = f"{name} as {asname}" if asname else name
                     unmapped_names.append(import_name)
 
-            # Build replacement lines
-            replacement_lines = []
+            # Build replacement statements
+            statements = []
             for new_module, names in new_imports.items():
                 names_str = ', '.join(names)
-                replacement_lines.append(f'from {new_module} import {names_str}\n')
+                statements.append(f'from {new_module} import {names_str}')
             if unmapped_names:
                 names_str = ', '.join(unmapped_names)
-                replacement_lines.append(f'from {module} import {names_str}\n')
+                statements.append(f'from {module} import {names_str}')
 
-            # Get line numbers
-            start_line = node.lineno - 1  # Convert to 0-based index
-            end_line = getattr(node, 'end_lineno', node.lineno) - 1
-            replacements.append((start_line, end_line, replacement_lines))
+            replacements.append((node, statements))
 
     if len(replacements) == 0:
         return None
 
-    # Apply replacements in reverse order to maintain line indices
-    for start_line, end_line, replacement_lines in reversed(replacements):
-        lines[start_line:end_line+1] = replacement_lines
+    # Apply replacements in reverse order to maintain line indices and column offsets
+    for node, statements in reversed(replacements):
+        start_line = node.lineno - 1  # Convert to 0-based index
+        end_line = getattr(node, 'end_lineno', node.lineno) - 1
+        # Column offsets are UTF-8 byte offsets
+        prefix = lines[start_line].encode()[:node.col_offset].decode()
+        suffix = lines[end_line].encode()[node.end_col_offset:].decode()
+        rest = suffix.lstrip(' \t\f')
+        if rest.startswith(';'):
+            rest = rest[1:].lstrip(' \t\f')
+        if prefix.strip() or not (rest.startswith('#') or rest.strip('\r\n') == ''):
+            # The import shares its first or last line with other code: keep that code
+            lines[start_line:end_line+1] = [prefix + '; '.join(statements) + suffix]
+        else:
+            lines[start_line:end_line+1] = [f'{statement}\n' for statement in statements]
 
     return ''.join(lines)
 
